@@ -1,5 +1,30 @@
-Check (C08_moov_length_independent_of_offsets : forall v vt vt' c m, same_shape vt vt' -> length (build_moov_box v vt None c m) = length (build_moov_box v vt' None c m)).
-Check (C08_moov_length_independent_of_offsets_av : forall v vt vt' a at_ at_' c m, same_shape vt vt' -> same_shape at_ at_' -> length (build_moov_box v vt (Some (a, at_)) c m) = length (build_moov_box v vt' (Some (a, at_')) c m)).
-Check (C08_layouts_differ_only_in_stco : forall v vt vt' c, same_shape vt vt' -> exists pre post,
+Open Scope N_scope.
+Check (C08_moov_length_independent_of_offsets : (forall v vt vt' c m,
+  same_shape vt vt' ->
+  length (build_moov_box v vt None c m) = length (build_moov_box v vt' None c m))%type).
+Check (C08_moov_length_independent_of_offsets_av : (forall v vt vt' a at_ at_' c m,
+  same_shape vt vt' -> same_shape at_ at_' ->
+  length (build_moov_box v vt (Some (a, at_)) c m) = length (build_moov_box v vt' (Some (a, at_')) c m))%type).
+Check (C08_layouts_differ_only_in_stco : (forall v vt vt' c,
+  same_shape vt vt' ->
+  exists pre post,
     build_stbl_box v vt c  = be32 (8 + len (pre ++ build_stco_box (st_chunk_offsets vt)  ++ post)) ++ T_stbl ++ pre ++ build_stco_box (st_chunk_offsets vt)  ++ post /\
-    build_stbl_box v vt' c = be32 (8 + len (pre ++ build_stco_box (st_chunk_offsets vt') ++ post)) ++ T_stbl ++ pre ++ build_stco_box (st_chunk_offsets vt') ++ post).
+    build_stbl_box v vt' c = be32 (8 + len (pre ++ build_stco_box (st_chunk_offsets vt') ++ post)) ++ T_stbl ++ pre ++ build_stco_box (st_chunk_offsets vt') ++ post)%type).
+Check (C08_fast_start_changes_only_the_layout : (forall b m_on m_off ops s_on s_off,
+  build (with_fast b true) [] = inl m_on -> build (with_fast b false) [] = inl m_off ->
+  In (RStats s_on) (snd (run m_on ops)) -> In (RStats s_off) (snd (run m_off ops)) ->
+  Forall op_payload_ok ops ->
+  len (sink_of (fst (run m_on ops))) < 4294967296 -> len (sink_of (fst (run m_off ops))) < 4294967296 ->
+  check_C08 (negb (match vsamples (m_writer (fst (run m_on ops))) ++ asamples (m_writer (fst (run m_on ops))) with [] => true | _ => false end))
+            (sink_of (fst (run m_on ops))) (sink_of (fst (run m_off ops))) = true)%type).
+Check (C08_fast_start_does_not_change_queues : (forall b m_on m_off ops,
+  build (with_fast b true) [] = inl m_on -> build (with_fast b false) [] = inl m_off ->
+  vsamples (m_writer (fst (run m_on ops))) = vsamples (m_writer (fst (run m_off ops))) /\
+  asamples (m_writer (fst (run m_on ops))) = asamples (m_writer (fst (run m_off ops))))%type).
+Check (C08_fast_start_does_not_change_results_before_finish : (forall b m_on m_off ops,
+  build (with_fast b true) [] = inl m_on -> build (with_fast b false) [] = inl m_off ->
+  Forall (fun o => o <> FIN) ops ->
+  snd (run m_on ops) = snd (run m_off ops))%type).
+Check (C08_finish_outcome_depends_on_layout_near_4GiB_refuted : (exists b m_on m_off ops,
+    build (with_fast b true) [] = inl m_on /\ build (with_fast b false) [] = inl m_off /\
+    map class_of (snd (run m_on ops)) <> map class_of (snd (run m_off ops)))%type).
